@@ -209,9 +209,28 @@ pub fn cel_same(a: &CelValue, b: &CelValue) -> bool {
         (CelValue::Ident(x), CelValue::Ident(y)) => x == y,
         (CelValue::TimeStamp(x), CelValue::TimeStamp(y)) => x == y,
         (CelValue::Duration(x), CelValue::Duration(y)) => x == y,
-        (CelValue::ByteCode(x), CelValue::ByteCode(y)) => format!("{:?}", x) == format!("{:?}", y),
+        (CelValue::ByteCode(x), CelValue::ByteCode(y)) => {
+            let (a, b): (Vec<&rscel::ByteCode>, Vec<&rscel::ByteCode>) = (x.iter().collect(), y.iter().collect());
+            a.len() == b.len() && a.iter().zip(b.iter()).all(|(p, q)| instr_same(p, q))
+        }
         _ => false,
     }
+}
+
+/// sameness of two instructions: pushed constants by `cel_same` (maps independent of their
+/// iteration order, NaN same as NaN), everything else by its listing
+pub fn instr_same(a: &rscel::ByteCode, b: &rscel::ByteCode) -> bool {
+    match (a, b) {
+        (rscel::ByteCode::Push(x), rscel::ByteCode::Push(y)) => cel_same(x, y),
+        (rscel::ByteCode::Push(_), _) | (_, rscel::ByteCode::Push(_)) => false,
+        _ => format!("{:?}", a) == format!("{:?}", b),
+    }
+}
+
+/// sameness of two programs' code
+pub fn bytecode_same(a: &Program, b: &Program) -> bool {
+    let (x, y): (Vec<&rscel::ByteCode>, Vec<&rscel::ByteCode>) = (a.bytecode().iter().collect(), b.bytecode().iter().collect());
+    x.len() == y.len() && x.iter().zip(y.iter()).all(|(p, q)| instr_same(p, q))
 }
 
 pub fn compile(src: &str) -> Result<Program, Outcome> {
